@@ -260,8 +260,9 @@ struct World : CallbackSink
 	Fnv trace;
 	bool sawRemove, sawInvoke;
 	bool dead; // stop generating after a violation that desynchronises model and object
+	int copyHookLi, copyHookUid; // while an insert(before=uid) is inside the library: the callback's copy constructor may remove `before`
 
-	World(const Mode & m, Rng & r) : mode(m), rng(r), nl(1), nextCb(0), budget(0), tick(0), sawRemove(false), sawInvoke(false), dead(false) { frames.reserve(16); }
+	World(const Mode & m, Rng & r) : mode(m), rng(r), nl(1), nextCb(0), budget(0), tick(0), sawRemove(false), sawInvoke(false), dead(false), copyHookLi(-1), copyHookUid(-1) { frames.reserve(16); }
 
 	std::string pre() const { return "[" + num((long long)frames.size()) + "] "; }
 	void log(const std::string & s) { oplog(pre() + s); trace.add(s); }
@@ -323,6 +324,20 @@ struct World : CallbackSink
 		}
 	}
 
+	// user code runs inside insert(): the callback is copied after `before` was locked and before the list mutex is taken.
+	// Removing `before` from there is an ordinary (re-entrant) list operation; insert must then append at the back.
+	void onCopy(int) override {
+		if(copyHookUid < 0 || dead) return;
+		const int li = copyHookLi, uid = copyHookUid;
+		copyHookUid = -1; // once
+		const bool expect = nodes[uid].live && nodes[uid].owner == li;
+		const bool got = Cfg::remove(store, li, rh[uid]);
+		if(expect) { mRemove(uid); sawRemove = true; }
+		log("  (callback copy constructor inside insert) remove L" + num(li) + " u" + num(uid) + " -> " + num(got));
+		count("remove_from_copy_constructor_inside_insert");
+		if(got != expect) fail("remove:result:from-copy-constructor-inside-insert", "remove returned " + num(got) + ", model says " + num(expect));
+	}
+
 	int newNode(int li, int cbid) {
 		MNode n; n.cbid = cbid; n.live = true; n.owner = li; n.born = ++tick;
 		nodes.push_back(n);
@@ -351,7 +366,10 @@ struct World : CallbackSink
 			what += " before u" + num(before) + "(" + hstate(li, before) + ")";
 			if(before >= 0 && ! nodes[before].live) count("stale_handle_ops");
 			if(before >= 0 && ! nodes[before].live && ! frames.empty()) count("stale_handle_ops_in_callback");
+			// only for CallbackList itself: a dispatcher holds its listenerMutex while the callback is copied, re-entering it from there is not promised
+			if(Cfg::structural && before >= 0 && nodes[before].live && nodes[before].owner == li && invDepth[li] == 0 && rng.chance(1, 6)) { copyHookLi = li; copyHookUid = before; }
 			h = Cfg::insert(store, li, cb, handleOf(before));
+			copyHookUid = -1;
 		}
 		std::vector<int> & o = lists[li].order;
 		const int uid = newNode(li, cbid);
